@@ -317,6 +317,17 @@ def F32():
     return hits[0][2] if hits else None
 
 
+def F33():
+    """C05: a PUBLISH followed by a server DISCONNECT, delivered whole and byte by byte: the value loop_read() returns for
+    the call that handles the DISCONNECT depended on where the packet budget of that call ended (0 or MQTT_ERR_NO_CONN)."""
+    from streams.reader import STREAMS
+    st = STREAMS[0]
+    case = ["cfg proto=5 clean=3 N=0 M=0 manual=1 rof=1 ext=0 ka=60 sup=0", "connect ok", "rxbytes 20060100031600003d0c0003612f6200020309000051308c010001740601000b80800180f44cb18f11c4ea1d5c53c2d35ad8af6d3baddb3ce10ce07c7182137fb64b6cd13e3fc7a6fd7242b8ac6a1e69d47d8e0b0215f00ad6a7d6833ca96065902cb015ff0c7f852b296f78bd5121443233e784decc48f3440bbff8821616945f4dd040b182f33805e78a12102409053e16e47b97d3696c816b449e5e256a828a795ded25", "publish 2 612f62 8d7e6e 0", "rxbytes 3c160004f09f9880000103230001265091cf70f3e0d0a664e0018e"]
+    obs = st.real(case)
+    hits = [h for h in st.monitors["C05"](st, case, obs) if h[1] == "fragmentation"]
+    return hits[0][2][:300] if hits else None
+
+
 def F27():
     """C01: a QoS 1 message accepted while disconnected (MQTT_ERR_NO_CONN) is sent and acknowledged after connecting,
     on_publish fires - but its MQTTMessageInfo keeps raising in is_published()/wait_for_publish()."""
@@ -587,7 +598,7 @@ def F18():
 
 
 ALL = {"F1": F1, "F2": F2, "F3": F3, "F4": F4, "F4b": F4b, "F5": F5, "F6": F6, "F7": F7, "F8": F8, "F9": F9,
-       "F10": F10, "F19": F19, "F20": F20, "F21": F21, "F22": F22, "F23": F23, "F24": F24, "F25": F25, "F26": F26, "F29": F29, "F27": F27, "F28": F28, "F11": F11, "F12": F12, "F13": F13, "F13t": F13t, "F32": F32, "F31": F31, "F30": F30, "F15": F15, "F16": F16, "F17": F17, "F18": F18}
+       "F10": F10, "F19": F19, "F20": F20, "F21": F21, "F22": F22, "F23": F23, "F24": F24, "F25": F25, "F26": F26, "F29": F29, "F27": F27, "F28": F28, "F11": F11, "F12": F12, "F13": F13, "F13t": F13t, "F33": F33, "F32": F32, "F31": F31, "F30": F30, "F15": F15, "F16": F16, "F17": F17, "F18": F18}
 
 
 def run(name):
